@@ -591,3 +591,36 @@ Definition server_binds (requested : saddr) : saddr := requested.
 (* ServerStartup::Ok { addr: local_addr().to_string() } as judged by `addr.to_string() != actual_addr` *)
 Definition report_of_started_server (requested : saddr) : startup_report :=
   SOk (path_eqb (addr_string requested) (addr_string (server_binds requested))).
+
+(* ================================================================================================
+   The client's ENVIRONMENT at a cold start (commands.rs `run_server_process`).  The only directory the
+   client itself needs is the one for the start-up rendezvous socket (SCCACHE_STARTUP_NOTIFY):
+   `tempfile::Builder::new().prefix("sccache").tempdir()`, i.e. a fresh directory in env::temp_dir()
+   ($TMPDIR, else /tmp).  XDG_RUNTIME_DIR and HOME are not consulted: stale or unwritable values of them
+   (after su / sudo -u / an ended login session) do not matter.  If the temporary directory itself is
+   unusable the `?` makes the whole command fail (SSpawnErr): exit 2, never a false success.           *)
+
+Inductive dir_state := DirUsable | DirUnusable.
+
+Record client_env := {
+  e_tmpdir : option dir_state;          (* None = unset: /tmp, taken to be usable *)
+  e_xdg_runtime : option dir_state;
+  e_home : option dir_state;
+}.
+
+Definition rendezvous_ok (e : client_env) : bool :=
+  match e_tmpdir e with Some DirUnusable => false | _ => true end.
+
+(* what the client learns from run_server_process, given what the spawned server would report *)
+Definition spawn_report (e : client_env) (rep : startup_report) : startup_report :=
+  if rendezvous_ok e then rep else SSpawnErr.
+
+(* ================================================================================================
+   The size of a result (server.rs: the response sink is the same LengthDelimitedCodec, so a
+   CompileFinished whose encoding exceeds max_frame_length cannot be written: the sink errors, the
+   connection task ends, the socket is dropped — AFTER CompileStarted went out).  The server never edits a
+   result to make it fit: the client gets the whole CompileFinished or none.                          *)
+
+Definition server_reply (cap : N) (f : finished) : list N :=
+  frame (encode_compile_response CompileStarted) ++
+  (if blen (encode_finished f) <=? cap then frame (encode_finished f) else []).
